@@ -2,6 +2,7 @@
 package c17
 
 import (
+	"bytes"
 	stdelliptic "crypto/elliptic"
 	"fmt"
 	"math/big"
@@ -417,7 +418,66 @@ func genK(t *rapid.T, label string) *big.Int {
 	return new(big.Int).SetBytes(rapid.SliceOfN(rapid.Byte(), 32, 32).Draw(t, label+"r"))
 }
 
+// limbScalar: values whose 64-bit or 32-bit limbs are special (all ones, zero, equal to the limbs of n, one
+// below / above them), of 1..40 bytes: carry and borrow chains of a limb-wise comparison, subtraction or
+// addition, and comparisons that look at raw bytes of scalars shorter or longer than 32 bytes
+func limbScalar(t *rapid.T) []byte {
+	nb := K.N.FillBytes(make([]byte, 32))
+	switch h.Pick(t, "limbk", 3, 3, 2, 2) {
+	case 0: // all-ones of any length (2^(8k)-1), optionally with the last byte changed
+		b := bytes.Repeat([]byte{0xff}, rapid.IntRange(1, 40).Draw(t, "ffs"))
+		if rapid.Bool().Draw(t, "fflast") {
+			b[len(b)-1] = byte(rapid.IntRange(0xf0, 0xff).Draw(t, "fflastv"))
+		}
+		return b
+	case 1: // n with one 8-byte limb replaced by zero / all ones / itself -+ 1 / random
+		b := append([]byte{}, nb...)
+		li := rapid.IntRange(0, 3).Draw(t, "limb") * 8
+		switch h.Pick(t, "limbv", 1, 1, 2, 2, 2) {
+		case 0:
+			copy(b[li:], make([]byte, 8))
+		case 1:
+			copy(b[li:], bytes.Repeat([]byte{0xff}, 8))
+		case 2:
+			v := new(big.Int).SetBytes(b[li : li+8])
+			if v.Sign() > 0 {
+				v.Sub(v, bigOne)
+				v.FillBytes(b[li : li+8])
+			}
+		case 3:
+			v := new(big.Int).SetBytes(b[li : li+8])
+			v.Add(v, bigOne)
+			if v.BitLen() <= 64 {
+				v.FillBytes(b[li : li+8])
+			}
+		default:
+			copy(b[li:], h.BytesN(t, "limbr", 8))
+		}
+		return b
+	case 2: // n -+ 2^k, and a proper byte prefix / suffix of n
+		v := new(big.Int).Lsh(bigOne, uint(rapid.IntRange(0, 255).Draw(t, "pow")))
+		if rapid.Bool().Draw(t, "minus") {
+			v.Sub(K.N, v)
+		} else {
+			v.Add(K.N, v)
+		}
+		if v.Sign() < 0 {
+			v.Neg(v)
+		}
+		return v.Bytes()
+	default:
+		k := rapid.IntRange(1, 31).Draw(t, "cut")
+		if rapid.Bool().Draw(t, "suffix") {
+			return append([]byte{}, nb[32-k:]...)
+		}
+		return append([]byte{}, nb[:k]...)
+	}
+}
+
 func genScalarBytes(t *rapid.T) []byte {
+	if h.Pick(t, "limbs", 4, 1) == 1 {
+		return limbScalar(t)
+	}
 	switch h.Pick(t, "sk", 3, 3, 1, 1, 1, 1) {
 	case 5: // a corner scalar as a proper bit prefix of a longer scalar (the ladder passes through it)
 		cs := cornerScalars()
@@ -611,6 +671,45 @@ func TestCornerGrid(t *testing.T) {
 }
 
 func (s scalar) str() string { return string(s) }
+
+// every combination of special 64-bit limbs: each of the four limbs of a 32-byte scalar is the limb of n, that
+// limb minus one, plus one, zero or all ones (625 scalars, above and below n): the carry and borrow chains of
+// a limb-wise comparison with / reduction by the group order
+func TestLimbGrid(t *testing.T) {
+	nb := K.N.FillBytes(make([]byte, 32))
+	h.RunEnum(t, h.Enum[opCase]{
+		Prop: "C17", Name: "limb-grid",
+		Rule: "complete enumeration of the 5^4 32-byte scalars whose 64-bit limbs are each the limb of n, that limb -1 / +1 (wrapping), zero or all ones: ScalarBaseMult on both copies = reference multiple; all non-trivial",
+		Each: func(yield func(opCase) bool) {
+			for mix := 0; mix < 625; mix++ {
+				sb := make([]byte, 32)
+				for li, m := 0, mix; li < 4; li, m = li+1, m/5 {
+					v := new(big.Int).SetBytes(nb[li*8 : li*8+8])
+					switch m % 5 {
+					case 1:
+						v.Sub(v, bigOne)
+					case 2:
+						v.Add(v, bigOne)
+					case 3:
+						v.SetInt64(0)
+					case 4:
+						v.SetUint64(^uint64(0))
+					}
+					v.And(v, new(big.Int).SetUint64(^uint64(0)))
+					v.FillBytes(sb[li*8 : li*8+8])
+				}
+				if !yield(opCase{Op: "basemult", K1: "1", Scalar: sb}) {
+					return
+				}
+			}
+		},
+		Check: func(c opCase) (h.Info, error) {
+			info, err := checkOp(c)
+			info.NT = true
+			return info, err
+		},
+	})
+}
 
 // FuzzGenOps: the structured generator driven by Go's coverage-guided fuzzer (thorough tier).
 func FuzzGenOps(f *testing.F) {
